@@ -49,7 +49,8 @@ def gen_scenario(rng, component=None, kinds=('int', 'str', 'str', 'tuple', 'fd')
                           start=rng.choice((None, None, 'first')))
     elif comp == 'implicit':
         problem = dict(type='none')
-        params = dict(n=rng.choice((5, 20)), p=rng.choice((0.3, 0.5)), ops=[rng.choice(('items', 'expectation', 'sample', 'marginalize', 'condition')) for _ in range(rng.randint(1, 4))])
+        params = dict(n=rng.choice((5, 20)), p=rng.choice((0.3, 0.5)),
+                      ops=[rng.choice(('items', 'expectation', 'sample', 'marginalize', 'condition', 'ext', 'ext_condition', 'ext_marginalize')) for _ in range(rng.randint(1, 4))])
     else:
         if rng.random() < 0.3 and comp not in ('semimdp',):
             name = rng.choice(MDP_DOMAINS)
@@ -379,6 +380,7 @@ def run_component(sc, problem, algo, env):
         pr = p['p']
         d = ImplicitDistribution(lambda rng: (rng.random() < pr, rng.randint(0, 2)), n_samples=p['n'], _seed=seed)
         out = []
+        pairs = []
         for op in p['ops']:
             if op == 'items':
                 out.append(sorted(([canon(k), float(v)] for k, v in d.items()), key=lambda x: str(x[0])))
@@ -390,11 +392,21 @@ def run_component(sc, problem, algo, env):
                 out.append(sorted(([canon(k), float(v)] for k, v in d.marginalize(lambda e: e[1]).items()), key=lambda x: str(x[0])))
             elif op == 'condition':
                 out.append(canon(d.condition(lambda e: e[1] != 1).sample()))
-        return dict(ops=out)
+            elif op in ('ext', 'ext_condition', 'ext_marginalize'):
+                # "equally seeded generator => identical results": two generators with the same seed, same distribution object
+                x = d if op == 'ext' else (d.condition(lambda e: e[1] != 1) if op == 'ext_condition' else d.marginalize(lambda e: e[1]))
+                g1, g2 = env.rng_factory(seed + 17), env.rng_factory(seed + 17)
+                a = [canon(x.sample(rng=g1)) for _ in range(4)]
+                b = [canon(x.sample(rng=g2)) for _ in range(4)]
+                out.append(a)
+                pairs.append([f"implicit/{op}: 4 samples drawn with two generators seeded alike", a, b])
+        return dict(ops=out, must_equal=pairs)
     if comp == 'rollout_mdp':
         pol = _rand_policy(problem, p['pseed'], p.get('tabular', False))
         tr = pol.run_on(problem, max_steps=p['cap'], rng=env.rng_factory(seed))
-        return dict(steps=[canon(dict(st)) for st in tr.steps])
+        tr2 = pol.run_on(problem, max_steps=p['cap'], rng=env.rng_factory(seed))
+        a, b = [canon(dict(st)) for st in tr.steps], [canon(dict(st)) for st in tr2.steps]
+        return dict(steps=a, must_equal=[["rollout_mdp: same policy and model objects rolled out twice with generators seeded alike", a, b]])
     if comp == 'evaluate_mdp':
         pol = _rand_policy(problem, p['pseed'], p.get('tabular', False))
         from msdm.core.mdp.policy import Policy as _P
@@ -404,9 +416,12 @@ def run_component(sc, problem, algo, env):
     if comp == 'rollout_pomdp':
         pol = _pomdp_policy(problem, p)
         start = None if p['start'] is None else sorted(problem.initial_state_dist().support, key=lambda x: str(canon(x)))[0]
-        tr = pol.run_on(problem, initial_state=start, max_steps=p['cap'], rng=env.rng_factory(seed))
-        return dict(steps=[[canon(st.state), canon(st.action), canon(st.nextstate), canon(st.reward), canon(st.observation),
-                            canon(_agent(st.agentstate))] for st in tr])
+        def tab(tr):
+            return [[canon(st.state), canon(st.action), canon(st.nextstate), canon(st.reward), canon(st.observation),
+                     canon(_agent(st.agentstate))] for st in tr]
+        a = tab(pol.run_on(problem, initial_state=start, max_steps=p['cap'], rng=env.rng_factory(seed)))
+        b = tab(pol.run_on(problem, initial_state=start, max_steps=p['cap'], rng=env.rng_factory(seed)))
+        return dict(steps=a, must_equal=[["rollout_pomdp: same policy and model objects rolled out twice with generators seeded alike", a, b]])
     raise ValueError(comp)
 
 
